@@ -4,10 +4,12 @@ import wire
 from wire import mk_fmt, cells
 from curtsies.formatstring import FmtStr, fmtstr
 from curtsies.formatstringarray import FSArray, fsarray
+from curtsies.window import BaseWindow
+import re
 from props.common import chunks_for, PALETTE
 
 PROP = "C04"
-MODULES = ["Curtsies.Properties.C04"]
+MODULES = ["Curtsies.Properties.C04", "Curtsies.Properties.C04Text"]
 RULE = ("exhaustive single assignments on a 2x3 array (4 initial contents with row lengths (0,0),(1,3),(3,2),(2,0)) over "
         "every region 0<=r0<=r1<=3, 0<=c0<=c1<=3 and every tuple of block-row lengths 0..4 with the right row count, plus "
         "wrong row counts, int subscripts a[r,c]='x', FSArray blocks, rows made of double-width / combining / control characters; seeded random histories of 1..7 operations "
@@ -16,7 +18,9 @@ RULE = ("exhaustive single assignments on a 2x3 array (4 initial contents with r
         "items with width omitted / fitting / too small and formatting args. non-trivial = distinct histories in which "
         "at least one assignment changes a cell or raises")
 LEVEL_NOTE = ("C04_assign_partial / C04_reject_partial / C04_fsarray_partial carry Operand.EscFree for plain-str rows (open "
-              "finding D27) and, for rejection, the complement of D19's footprint; C04_full_statement is refuted by "
+              "finding D27) and, for rejection, the complement of D19's footprint; the statements are for row subscripts that are "
+              "non-negative ints or slices with explicit bounds 0 <= r0 <= r1 and column regions 0 <= c0 <= c1 <= width (the "
+              "property is silent beyond the width); C04_full_statement is refuted by "
               "C04_D19_witness and C04_D27_witness. Zero-area regions (r0 == r1 or c0 == c1) are OUTSIDE the statement's "
               "domain: no error is required there, only 'no cell changes' (C04_empty_region_noop, checked by the oracle). "
               "trusted: Lean kernel + propext/Classical.choice/Quot.sound, the hand-written models (FmtStr core, escape "
@@ -29,6 +33,9 @@ ASSUMPTIONS = ["plain str rows containing ESC '[' are IN the domain (the propert
                "the row object unchecked and is outside the statement",
                "empty regions (r0 == r1 or c0 == c1) are outside the statement: no error is required there whatever the block is, "
                "only 'no cell changes', which IS checked (and the tie still compares outcome and the extended rows)",
+               "FSArray.__getitem__ with a NEGATIVE int computes len(rows) - i (sign slip), so a[-1] always raises IndexError: modelled "
+               "as it is and tied; negative row subscripts are outside the statement's quantifier (regions and rows are "
+               "addressed with non-negative indices), so it is not counted against C04",
                "'blank' = a cell beyond the stored length of its row or an unformatted space (what the padding writes)",
                "a str value is read as the block of its characters (one per row), in the domain only for one-column regions"]
 
@@ -125,6 +132,8 @@ def enc_op(op):
 
 
 def line(c):
+    if c["kind"] == "aft":
+        return "arrayfromtext %d %d %s" % (c["rows"], c["cols"], wire.enc_tf(c["msg"]))
     if c["kind"] == "hist":
         return " ".join(["fsa", str(c["nr"]), str(c["nc"]), "A" + wire.enc_atts(ctor_atts(c["fa"]))] + [enc_op(op) for op in c["ops"]])
     items = [("s" + wire.enc_text(it[1])) if it[0] == "s" else ("f" + wire.enc_chunks(it[1])) for it in c["strings"]]
@@ -156,6 +165,12 @@ def apply_op(a, op):
 
 
 def impl(c):
+    if c["kind"] == "aft":
+        try:
+            a = BaseWindow.array_from_text_rc(c["msg"], c["rows"], c["cols"])
+        except Exception as e:  # noqa: BLE001
+            return wire.exc_kind(e)
+        return "ok %d=%s" % (a.num_columns, enc_rows(a.rows))
     if c["kind"] == "hist":
         a = mk_array(c)
         toks = [apply_op(a, op) for op in c["ops"]]
@@ -238,47 +253,21 @@ def has_esc(it):
     return it[0] == "s" and "\x1b[" in it[1]
 
 
-def explain_d27(before, W, reg, items):
-    """What setslice_with_length does row by row when a plain-str row is measured RAW (padding, assert, width check)
-    but converted by fmtstr(), which parses it - stated on cells. -> (exception kind or None, predicted rows)"""
-    r0, r1, c0, c1 = reg
-    rows = [list(x) for x in before] + [[] for _ in range(max(0, r1 - len(before)))]
-    new_rows = []
-    for i, it in enumerate(items):
-        row = rows[r0 + i]
-        L = len(row)
-        k = c0 - L if L < c0 else 0
-        raw = (len(it[1]) if it[0] == "s" else sum(len(t) for t, _ in it[1])) + k
-        j = 0
-        if L > c1:
-            j = max(0, c1 - c0 - raw)
-            if raw + j != c1 - c0:
-                return "E:AssertionError", None
-        if it[0] == "s":
-            mid = cells(fmtstr(" " * k + it[1] + " " * j))
-        else:
-            mid = [BLANK] * k + wire.cells_of_chunks(it[1]) + [BLANK] * j
-        res = row[:c0] + mid + row[c1:]
-        if len(res) > W:
-            return "E:ValueError", None
-        new_rows.append(res)
-    return None, rows[:r0] + new_rows + rows[r1:]
-
-
-def check_assign(op, before, after, W, raised):
-    """-> list of (what, footprint)"""
+def check_assign(op, before, after, W, raised, model_agrees):
+    """-> list of (what, footprint). model_agrees: the real outcome and rows of this call (and of every earlier call of
+    the history) equal the Lean model's - the model, with its own parser and raw-length arithmetic, is the independent
+    statement of what finding D27 explains (never the tree's own fmtstr)."""
     out = check_assign0(op, before, after, W, raised)
     v = op["v"]
+    if not model_agrees:
+        # model and code disagree on this very call: judge it without any footprint
+        return [(w, None) for w, fp in out]
     if out and v["k"] == "list" and any(has_esc(it) for it in v["items"]):
-        # D27 footprint: a plain-str row contains ESC '[' and the outcome is exactly what raw-length measuring plus
-        # parsing explains (right row count, non-empty region; everything else stays unlisted)
+        # D27 footprint: a plain-str row contains ESC '[', right row count, non-empty region, and the outcome is exactly
+        # the model's (raw-length measuring plus parsing); everything else stays unlisted
         reg = region_of(dict(op, o="S", c=("s", None, None)) if op["o"] == "T" else op, W)
         if reg is not None and reg[0] < reg[1] and reg[2] < reg[3] and len(v["items"]) == reg[1] - reg[0]:
-            kind, rows = explain_d27(before, W, reg, v["items"])
-            if (kind is not None and raised == kind and not any(cell(before, r, c) != cell(after, r, c)
-                                                                 for r in range(len(after) + 1) for c in range(W + 3))) \
-                    or (kind is None and raised is None and [list(x) for x in after] == rows):
-                out = [(w, "D27" if fp is None else fp) for w, fp in out]
+            out = [(w, "D27" if fp is None else fp) for w, fp in out]
     return out
 
 
@@ -407,9 +396,46 @@ def check_read(op, g, W, result):
     return out
 
 
-def oracle(c):
-    """-> list of (what, footprint)"""
+def layout_text(msg, rows, W):
+    """array_from_text_rc's meaning, cursor-free: the text split at every CR / LF; each line but the last is padded with
+    blanks up to the next multiple of W strictly beyond its end (a line break always moves to a fresh row, so a full row
+    followed by a break, and each of CR LF, leave a blank row); laid out row-major; truncated to rows*W cells."""
+    flat = []
+    parts = re.split("[\r\n]", msg)
+    for p in parts[:-1]:
+        flat += list(p) + [None] * (W - len(p) % W if W else 0)
+    flat += list(parts[-1])
+    return flat[:rows * W]
+
+
+def oracle_aft(c):
     out = []
+    msg, rows, W = c["msg"], c["rows"], c["cols"]
+    try:
+        a = BaseWindow.array_from_text_rc(msg, rows, W)
+        g, shape = snapshot(a), a.shape
+    except Exception as e:  # noqa: BLE001
+        return [("array_from_text_rc(%r, %d, %d) raised %s" % (msg, rows, W, type(e).__name__), None)]
+    flat = layout_text(msg, rows, W)
+    if shape[1] != W or any(len(r) > W for r in g) or len(g) > rows:
+        out.append(("array_from_text_rc: shape %r, row lengths %r for rows=%d columns=%d" % (shape, [len(r) for r in g], rows, W), None))
+    for r in range(rows + 2):
+        for cc in range(W + 2):
+            k = r * W + cc
+            want = (flat[k], ()) if cc < W and k < len(flat) and flat[k] is not None else BLANK
+            if cell(g, r, cc) != want:
+                out.append(("array_from_text_rc(%r, %d, %d): cell (%d,%d) shows %r, the text laid out gives %r"
+                            % (msg, rows, W, r, cc, cell(g, r, cc), want), None))
+                return out
+    return out
+
+
+def oracle(c, model_reply=None):
+    """-> list of (what, footprint); model_reply: the Lean model's reply to the same request (None: unavailable, then no
+    case is attributed to a finding that needs it)"""
+    out = []
+    if c["kind"] == "aft":
+        return oracle_aft(c)
     if c["kind"] == "fsarray":
         args, kwargs = FMT_ARGS[c["fa"]]
         atts = tuple(sorted(ctor_atts(c["fa"]).items()))
@@ -434,11 +460,9 @@ def oracle(c):
             out.append(("fsarray accepted strings longer than width %d" % w, None))
         elif shape != ((len(want), w), w, len(want)) or rows != want:
             fp = None
-            if any(has_esc(it) for it in c["strings"]) and shape == ((len(want), w), w, len(want)):
-                # D27: width from the raw lengths, rows show the PARSED strs
-                parsed = [cells(fmtstr(it[1], *args, **dict(kwargs))) if it[0] == "s" else wire.cells_of_chunks(it[1])
-                          for it in c["strings"]]
-                if rows == parsed:
+            if any(has_esc(it) for it in c["strings"]) and shape == ((len(want), w), w, len(want)) and model_reply is not None:
+                # D27: width from the raw lengths, rows show the PARSED strs - as the Lean model (own parser) returns them
+                if canon("ok %d=%s" % (a.num_columns, enc_rows(a.rows))) == canon(model_reply):
                     fp = "D27"
             out.append(("fsarray: shape %r rows %r, expected %r rows showing %r" % (shape[0], rows, (len(want), w), want), fp))
         return out
@@ -446,12 +470,18 @@ def oracle(c):
     W = c["nc"]
     if a.shape != (c["nr"], W) or any(len(r) for r in a.rows):
         out.append(("FSArray(%d,%d) is not a blank %dx%d array" % (c["nr"], W, c["nr"], W), None))
+    model_toks = model_reply.split(" ") if model_reply else None
+    agrees = model_toks is not None and len(model_toks) == len(c["ops"]) + 1
     for k, op in enumerate(c["ops"]):
         before = snapshot(a)
         if op["o"] in ("S", "T", "I"):
             try:    # observing the array after the call must not raise either
                 tok = apply_op(a, op)
                 after = snapshot(a)
+                for ri, row in enumerate(a.rows):       # the other views of every row agree with its cells
+                    if row.s != "".join(ch for ch, _ in after[ri]) or len(row) != len(after[ri]):
+                        out.append(("op %d %s: row %d has .s %r / len %d but its runs spell %r" % (
+                            k, enc_op(op)[:60], ri, row.s, len(row), "".join(ch for ch, _ in after[ri])), None))
             except Exception as e:  # noqa: BLE001
                 out.append(("op %d %s: reading the array after the call raised %s" % (k, enc_op(op)[:60], type(e).__name__), None))
                 return out
@@ -460,7 +490,8 @@ def oracle(c):
                 continue
             if raised and len(after) != len(before):
                 HEIGHT_AFTER_RAISE[(len(before), len(after))] += 1     # informational (C04_height), not a violation
-            for what, fp in check_assign(op, before, after, W, raised):
+            agrees = agrees and canon(tok) == canon(model_toks[k])
+            for what, fp in check_assign(op, before, after, W, raised, agrees):
                 out.append(("op %d %s: %s" % (k, enc_op(op)[:60], what), fp))
             if raised == "E:TypeError":
                 RAISED_TYPEERROR[0] += 1
@@ -629,6 +660,19 @@ def mk_cases(ctx):
                                                     ("s", -1, None)])))
         ops.append(dict(o="G", r=("s", 0, h + 1), c=("s", 0, nc)))
         cases.append(dict(kind="hist", nr=nr, nc=nc, fa=r.randint(0, len(FMT_ARGS) - 1), ops=ops))
+    # array_from_text_rc
+    na = 0
+    texts = ["", "a", "ab", "abc", "abcd", "abcde", "a\nb", "ab\ncd", "abc\nd", "\n", "\n\n", "a\r\nb", "a\rb", "\na", "ab\n",
+             "abcdefgh", "a\n\nb", "abc\n\nde\nf", " a b", "a\x1bb", "a\tb", "\uff25x\u0301y", "ab\r\n\r\ncd", "abcdefghijklmnop", "x\n" * 5]
+    for msg in texts:
+        for rows in range(0, 4):
+            for cols in range(0, 5):
+                cases.append(dict(kind="aft", msg=msg, rows=rows, cols=cols))
+                na += 1
+    for _ in range(2000 if ctx.thorough else 300):
+        msg = "".join(r.choice("abcdefg  \n\n\r") for _ in range(r.randint(0, 14)))
+        cases.append(dict(kind="aft", msg=msg, rows=r.randint(0, 4), cols=r.randint(0, 5)))
+    ctx.exhaustive.append("array_from_text_rc: %d texts (newlines, CR LF, longer than the area) x rows 0..3 x columns 0..4: %d cases" % (len(texts), na))
     # fsarray()
     for esc in ("\x1b[31mxy\x1b[39m", "\x1b[1m", "a\x1b[0mb"):
         for width in (None, 2, 12, 20):
@@ -655,6 +699,8 @@ def footprint(c, what):
 def nontrivial(c, impl_reply):
     if c["kind"] == "fsarray":
         return len(c["strings"]) > 0
+    if c["kind"] == "aft":
+        return len(c["msg"]) > 0 and c["rows"] * c["cols"] > 0
     toks = impl_reply.split(" ")
     prev = None
     for t in toks:
@@ -667,17 +713,28 @@ def nontrivial(c, impl_reply):
 
 
 def tag(c):
-    if c["kind"] == "fsarray":
-        return "fsarray"
+    if c["kind"] in ("fsarray", "aft"):
+        return c["kind"]
     return "history-%d-ops" % min(len(c["ops"]), 8)
+
+
+def model_replies(ctx, cases):
+    """the Lean model's reply per case (None when the driver is unavailable: then nothing is attributed to a finding)"""
+    try:
+        import lib
+        return lib.run_driver([line(c) for c in cases])
+    except Exception as e:  # noqa: BLE001
+        ctx.note("model replies unavailable, no case is attributed to a known finding: %r" % (e,))
+        return [None] * len(cases)
 
 
 def check(ctx):
     cases = mk_cases(ctx)
     replies = ctx.tie("C04/histories", cases, line, impl, canon, canon)
-    for c, rep in zip(cases, replies):
+    model = model_replies(ctx, cases)
+    for c, rep, mrep in zip(cases, replies, model):
         ctx.count(c, nontrivial=nontrivial(c, rep), tag=tag(c))
-        for what, fp in oracle(c):
+        for what, fp in oracle(c, mrep):
             ctx.violation(what, c, fp)
     ctx.note("observation: a block with the wrong number of rows always raises TypeError, not the intended ValueError - the "
              "message construction crashes (\"\".join(value) on FmtStr items / \"\\n \".join(<FmtStr rows>)); the "
@@ -697,9 +754,10 @@ def search(ctx):
     if ctx.thorough:
         return
     ctx.thorough = True
-    for c in mk_cases(ctx):
+    cases = mk_cases(ctx)
+    for c, mrep in zip(cases, model_replies(ctx, cases)):
         ctx.count(c, tag="search")
-        for what, fp in oracle(c):
+        for what, fp in oracle(c, mrep):
             ctx.violation(what, c, fp)
         if len([v for v in ctx.violations if v["footprint"] is None]) > 50:
             return
@@ -733,6 +791,6 @@ def replay(payload):
                     v["rows"] = [[tuple(ch) for ch in r] for r in v["rows"]]
             if "f" in op:
                 op["f"] = [tuple(ch) for ch in op["f"]]
-    else:
+    elif c["kind"] == "fsarray":
         c["strings"] = [fix_item(it) for it in c["strings"]]
     return dict(case=c, implementation=impl(c), oracle=oracle(c))
